@@ -61,6 +61,9 @@ fn main() {
                 "C14" => props::c14::run(tier, seed, replay.as_deref()),
                 "C15" => props::c15::run(tier, seed, replay.as_deref()),
                 "C16" => props::c16::run(tier, seed, replay.as_deref()),
+                "C17" => props::c17::run(tier, seed, replay.as_deref()),
+                "C18" => props::c18::run(tier, seed, replay.as_deref()),
+                "C19" => props::c19::run(tier, seed, replay.as_deref()),
                 "C20" => props::c20::run(tier, seed, replay.as_deref()),
                 _ => {
                     eprintln!("no check for {id}");
